@@ -57,7 +57,7 @@ def run_format_fn(ctx, eng, nfiles, check_flag=None):
         st.assume(z3.Or(pd == 0, pd == 1))
         path = Enum('Option', pd, {1: Tup([Opaque('PathBuf', 'cfgpath%d' % n)])})
         res = Enum('Result', d, {0: Tup([Tup([cfg, path])]), 1: Tup([Opaque('io::Error', 'e%d' % n)])})
-        st.trace.append(('load_config', cfg, args[0]))
+        st.trace.append(('load_config', cfg, args[0], pd))
         return res
     eng.stubs = [x for x in eng.stubs if 'load_config' not in x[2]]
     eng.stub(r'^load_config::<', load_config_stub, 'load_config = returns a fresh Config object and an optional path, or an io error')
